@@ -671,4 +671,28 @@ theorem f20_body_dropped :
       [.hs 8, .hx 96, .close 96, .done 96] := by
   decide +kernel
 
+/-! ## the hypotheses are satisfiable (non-vacuity) -/
+
+/-- a reachable connection with a running handler (GET at tick 8, handler sleeps 33 ticks):
+hypotheses of `inflight_may_finish` and `cancelled_by_2T` -/
+example :
+    let c := step {} 8 (.recv [⟨.get, 33⟩])
+    c.cur = .sleeping 41 ∧ c.transportOpen = true ∧ c.sd = .none ∧ c.forceClose = false ∧ c.cur ≠ .idle := by
+  decide +kernel
+
+/-- a reachable connection whose handler waits for its body, marked by `pre_shutdown`:
+hypotheses of `inflight_body_never_completes` and `no_new_requests_after_shutdown` -/
+example :
+    let c := step (step {} 8 (.recv [⟨.postPart, 3⟩])) 16 .preShutdown
+    c.closeFlag = true ∧ c.cur = .waitBody 3 := by
+  decide +kernel
+
+/-- a fresh connection is idle and open: hypotheses of `idle_closed_at_shutdown` -/
+example : ({} : Conn).cur = .idle ∧ ({} : Conn).sd = .none ∧ ({} : Conn).transportOpen = true := by
+  decide
+
+/-- a scenario in which cleanup returns: hypothesis of `all_closed_when_cleanup_returns` -/
+example : returnTime (16 + 0) ([[(8, .recv [⟨.get, 33⟩])], []].map (runConn 80 16 0)) = some 41 := by
+  decide +kernel
+
 end Aio.C20.Drain
